@@ -41,6 +41,13 @@ const (
 	vpIterRefresh
 )
 
+// Late points: placed after a shared-memory step, where the rest of the
+// segment is local to the goroutine. The harness does not park here; it may
+// run another operation to completion at such a point.
+const (
+	vpIterHelped = iota + 40
+)
+
 // VerifHook is called before every instrumented shared-memory step.
 var VerifHook func(point int, obj unsafe.Pointer)
 
@@ -102,6 +109,7 @@ var VerifPointNames = map[int]string{
 	vpNewLevel:    "NEW_LEVEL",
 	vpIterNext:    "ITER_NEXT",
 	vpIterRefresh: "ITER_REFRESH",
+	vpIterHelped:  "ITER_HELPED",
 }
 
 // VerifSetRand replaces a segment's level generator source.
